@@ -517,19 +517,20 @@ def read_back(rec, lp, xs, case, rng, extras, fdt, c, ncl):
         if sn == "names" and [bits_of(a[i]) for i in range(n)] != rowsB:
             rec.fail("live_points_to_array:roundtrip", "array -> live points -> array changed the values")
     # live_points_to_dict
-    for sn, s in (("names", list(names)), ("selection", sel), ("none", None)):
+    # ("empty": an explicit EMPTY selection is a selection — the result has no keys; seeded change C18-d: `names or …`)
+    for sn, s in (("names", list(names)), ("selection", sel), ("none", None), ("empty", []), ("empty-tuple", ())):
         d, err = call(lp.live_points_to_dict, xs, s)
         if err:
             impl = err
             rec.fail("live_points_to_dict", f"raised {err} ({sn})")
         else:
             impl = "ok [" + ",".join(f"{kk}:[{','.join(str(t) for t in tok_col(v))}]" for kk, v in d.items()) + "]"
-            s2 = fields if s is None else s
+            s2 = fields if s is None else list(s)
             if list(d.keys()) != list(s2):
                 rec.fail("live_points_to_dict", f"keys {list(d.keys())} != requested {s2}")
             elif any(tok_col(d[nm]) != tok_col(xs[nm]) for nm in s2):
                 rec.fail("live_points_to_dict", "a value differs from the field it is named after")
-        rec.add(f"lp todict {fs} {rs} {'none' if s is None else fmt_names(s)}", impl, "live_points_to_dict." + sn,
+        rec.add(f"lp todict {fs} {rs} {'none' if s is None else fmt_names(list(s))}", impl, "live_points_to_dict." + sn,
                 f"todict.{sn}.{ncl}")
     # live points -> dict -> live points
     d, err = call(lp.live_points_to_dict, xs, list(names))
